@@ -2,7 +2,8 @@
 (* Generator for property C14: the standard library has the ES5 shape.        *)
 (* The table of spec/LibShapeTab.tla is checked for internal consistency      *)
 (* (ASSUME TableOK) and enumerated completely: one VJSON line per object, per *)
-(* own property and per for-in subject, each with the observation ES5         *)
+(* own property, per for-in subject and per distinguishing call, each with    *)
+(* the observation ES5                                                        *)
 (* prescribes (exp) and, where an open finding changes it, the observation    *)
 (* under the named deviations (dev).  The harness replays every line on a     *)
 (* fresh runtime, a runtime with underscore loaded and a Copy() of each.      *)
@@ -26,7 +27,9 @@ ASSUME /\ Len(LTab.objs) = Len(STab.objs) /\ Len(LTab.rows) = Len(STab.rows)
 NO == Len(STab.objs)
 NR == Len(STab.rows)
 NF == Len(STab.forins)
-N  == NO + NR + NF
+CallIx == SelectSeq([i \in 1..NO |-> i], LAMBDA i : STab.objs[i].call # "")     \* the objects with a distinguishing call
+NC == Len(CallIx)
+N  == NO + NR + NF + NC
 
 DevOf(es, ed) == IF ed = es THEN <<>> ELSE <<ed>>
 
@@ -34,16 +37,20 @@ Line(j) ==
     IF j <= NO THEN
         LET o == STab.objs[j] IN
         [k |-> "obj", i |-> j, id |-> o.id, js |-> o.js, vo |-> o.vo, vn |-> o.vn, grp |-> o.grp, clause |-> o.clause,
-         call |-> o.call, names |-> S!NamesOf(STab, o.id), mask |-> S!ObjMask(o),
+         names |-> S!NamesOf(STab, o.id), mask |-> S!ObjMask(o),
          exp |-> S!ObjExp(STab, o), dev |-> DevOf(S!ObjExp(STab, o), L!ObjExp(LTab, LTab.objs[j]))]
     ELSE IF j <= NO + NR THEN
         LET r == STab.rows[j - NO] IN
         [k |-> "row", i |-> j, owner |-> r.owner, name |-> r.name, kind |-> r.kind, clause |-> r.clause,
          exp |-> S!RowExp(STab, r), dev |-> DevOf(S!RowExp(STab, r), L!RowExp(LTab, LTab.rows[j - NO]))]
-    ELSE
+    ELSE IF j <= NO + NR + NF THEN
         LET f == STab.forins[j - NO - NR] IN
         [k |-> "forin", i |-> j, id |-> f.id, js |-> f.js, note |-> f.note,
          exp |-> S!ForInExp(STab, f.id), dev |-> DevOf(S!ForInExp(STab, f.id), L!ForInExp(LTab, f.id))]
+    ELSE
+        LET o == STab.objs[CallIx[j - NO - NR - NF]] IN
+        [k |-> "call", i |-> j, id |-> o.id, call |-> o.call, clause |-> o.clause,
+         exp |-> S!CallExp(o), dev |-> DevOf(S!CallExp(o), L!CallExp(LTab.objs[CallIx[j - NO - NR - NF]]))]
 
 (* parallel evaluation: an initial state is a block, its successors the lines of the block *)
 K == 16
